@@ -259,12 +259,19 @@ Record sigin := mkS {
   s_zone_key : bool; s_crypto_ok : bool
 }.
 
-(* Timestamp::canonical_gt / canonical_lt: Serial::canonical_cmp, the plain u32 order *)
-Definition ts_cmp (a b : N) : comparison :=
-  if sig_time_is_canonical then serial_canonical_cmp a b
-  else match serial_partial_cmp a b with Ok (Some c) => c | _ => Eq end.
+(* Signature times.  T1 tells which comparison the code uses:
+   - Timestamp::canonical_gt / canonical_lt = Serial::canonical_cmp, the plain u32 order, or
+   - Timestamp::partial_cmp = Serial::partial_cmp (RFC 1982); values exactly 2^31 apart are
+     incomparable and the signature is then rejected. *)
+Definition serial_le (a b : N) : bool :=
+  match serial_partial_cmp a b with Ok (Some Lt) => true | Ok (Some Eq) => true | _ => false end.
+Definition serial_ge (a b : N) : bool :=
+  match serial_partial_cmp a b with Ok (Some Gt) => true | Ok (Some Eq) => true | _ => false end.
 Definition sig_time_ok (now inception expiration : N) : bool :=
-  negb (op_holds sig_expired_op (ts_cmp now expiration) || op_holds sig_early_op (ts_cmp now inception)).
+  if sig_time_is_canonical
+  then negb (op_holds sig_expired_op (serial_canonical_cmp now expiration)
+             || op_holds sig_early_op (serial_canonical_cmp now inception))
+  else serial_le now expiration && serial_ge now inception.
 
 Definition check_sig (s : sigin) : bool :=
   if negb (name_eqb (s_sig_owner s) (s_owner s)) || negb (s_same_class s) then false
